@@ -171,6 +171,19 @@ def grid(quick):
                                       (64, 100, 2, []), (64, 100, 2, [2])]):
         cells.append({"api": "root_inv_multi", "n": n, "batch": batch, "fam": "uniform", "size": size, "dtype": "f64",
                       "jitter": None, "nprobe": nprobe, "start": "random", "nvec": nprobe})
+    # mixed breakdown at the operator level: one member of the batch is a multiple of the identity (its Lanczos run breaks
+    # down in the first step), at every position; the other members are owed exact roots / inverse roots / diagonalisations
+    for n in ([6] if quick else [4, 6, 9]):
+        for batch in ([2], [3], [2, 2]):
+            Bn = 1
+            for x in batch:
+                Bn *= x
+            for pos in range(Bn):
+                fams = [["uniform", "kappa10"][(b + pos) % 2] for b in range(Bn)]
+                fams[pos] = "scalar"
+                for api in ("root", "root_inv", "diag"):
+                    cells.append({"api": api, "n": n, "batch": batch, "fam": fams, "size": 100, "dtype": "f64", "jitter": None,
+                                  "nprobe": 1, "start": "random", "nvec": 1})
     # batch shapes with dimensions of size 1 (the unsqueeze / squeeze bookkeeping of the forward passes and the
     # squeeze(0) of the probe selection)
     for bi, batch in enumerate([[1], [1, 2], [2, 1], [1, 1], [3, 1, 2]] if not quick else [[1], [1, 2], [2, 1], [1, 1]]):
@@ -289,7 +302,7 @@ def oracle_psd_part(T64):
     return (V * w.clamp_min(0.0).unsqueeze(-2)) @ V.mT
 
 
-def judge_api(c, d, r, lanczos_cell, default_jitter=1e-6):
+def judge_api(c, d, r, lanczos_cell, default_jitter=1e-6, member_ok=None):
     """property predicates on what the API returned (plain torch, float64), using the (Q, T) read back from the
     call.  lanczos_cell: the cell classification of the recorded Lanczos run ('regular' or a known defective
     cell; in the latter case only the model comparison is made).  Returns (fails, info)."""
@@ -345,11 +358,14 @@ def judge_api(c, d, r, lanczos_cell, default_jitter=1e-6):
     info["shapes"] = {k: list(r[k].shape) for k in ("root", "inv", "dvecs", "dvals") if k in r}
     if any(f["fail"] == "shape" for f in shape_fails) or any(r[k].numel() != Lq * n * m for k in ("root", "inv", "dvecs") if k in r and c["api"] != "root_inv_multi"):
         return [f for f in shape_fails if f["fail"] == "shape"] or shape_fails, info
-    if lanczos_cell != "regular" or c["fam"] == "indef":
+    if c["fam"] == "indef" or (lanczos_cell != "regular" and not member_ok):
         return shape_fails, info
+    # in a mixed cell (some member of the batch broke down) the members whose own Lanczos run is regular are judged
     worst = {}
     for li in range(Lq):
         b = li % B
+        if lanczos_cell != "regular" and [li // B, b] not in member_ok:
+            continue
         Q, T = qq[li], tt[li]
         an = max(float(A[b].abs().max()), 1e-300)
         jm = jit * float(torch.diagonal(T).min())
